@@ -1,3 +1,4 @@
+mod c01;
 mod c02;
 mod c03;
 mod c04;
@@ -50,6 +51,7 @@ fn main() {
     }
     let tier = args[2].as_str();
     let code = match args[1].as_str() {
+        "C01" => c01::run(tier),
         "C02" => c02::run(tier),
         "C03" => c03::run(tier),
         "C04" => c04::run(tier),
